@@ -590,7 +590,7 @@ func (C09) Explore(x *kernel.Explorer, seed uint64) {
 			"join": int64(r.Intn(4) / 3), "preprot": int64(r.Intn(2)), "rotfail": int64(r.Intn(3)/2) * int64(1+r.Intn(8))}}
 		n := 2 + r.Intn(7)
 		for j := 0; j < n; j++ {
-			plan.Ops = append(plan.Ops, kernel.Op{ID: j + 1, Kind: "row", A: []int64{int64(r.Intn(6))}})
+			plan.Ops = append(plan.Ops, kernel.Op{ID: j + 1, Kind: "row", A: []int64{int64([]int{0, 1, 2, 3, 4, 5, 0, 1, 2, 3, 4, 5, 6, 8, 10}[r.Intn(15)])}})
 		}
 		for j := 0; j < 2+r.Intn(5); j++ {
 			plan.Ops = append(plan.Ops, kernel.Op{ID: 100 + j, Kind: "search", A: []int64{int64(r.Intn(len(c09Values))), int64(r.Intn(8)), int64(r.Intn(2))}})
@@ -648,6 +648,10 @@ func (C09) Run(t *testing.T, plan *kernel.Plan, keepLog bool) *kernel.Result {
 				continue
 			}
 			v := c09Values[int(op.Arg(0, 0))%6]
+			if int(op.Arg(0, 0))%12 >= 6 && v != "" {
+				// a stored value that differs from another stored (and searched) one in a trailing blank only
+				v += " "
+			}
 			values = append(values, v)
 			if mysql {
 				script = append(script, myInsertStmt(names, len(values), "p", []string{v}, []colKind{col}, plan.Sw("params") == 1, len(values)%2))
